@@ -18,6 +18,7 @@ type Profile struct {
 	W               map[string]int // op weights
 	PBurst          float64
 	PBlock          float64
+	NoJitter        float64 // share of the worlds without network jitter (blocks can then be aligned with frame ticks)
 	StallBoost      float64 // share of the worlds in which tasks are stalled often (1 step in 100, up to 5 ms)
 	ProbeAfterBlock float64 // probability that a fresh connection joins (and leaves) right after a block
 	PFocus          float64 // share of the blocks whose requests all meet on one entity / component / action
@@ -399,9 +400,11 @@ func GenHistory(seed uint64, p *Profile) *Scenario {
 						g.dead[c2] = true
 						g.joined[c2] = ""
 					}
-					if nc, ok := g.freshConn(); ok {
-						g.steps = append(g.steps, Step{Conn: nc, Op: "join", Sess: "new", Block: g.nextBlk})
-						g.joined[nc] = "new"
+					for k2 := 0; k2 < 1+r.Intn(2); k2++ {
+						if nc, ok := g.freshConn(); ok {
+							g.steps = append(g.steps, Step{Conn: nc, Op: "join", Sess: "new", Block: g.nextBlk})
+							g.joined[nc] = "new"
+						}
 					}
 					if nc, ok := g.freshConn(); ok && r.Bool(0.5) {
 						g.steps = append(g.steps, Step{Conn: nc, Op: "join", Sess: victim, Block: g.nextBlk})
@@ -608,6 +611,7 @@ func genWorld(seed uint64, r *simrt.Rand, p *Profile) WorldCfg {
 	if w.Policy != "seq" {
 		w.SelectOrder = []string{"", "", "", "source", "reverse"}[r.Intn(5)]
 		w.UnlockYield = []float64{0, 0, 0.2, 0.5}[r.Intn(4)]
+		w.StmtYield = []float64{0, 0, 0.1, 0.3}[r.Intn(4)]
 	}
 	if w.Policy != "seq" && r.Bool(0.3) {
 		w.StallProb = 0.002
@@ -630,6 +634,9 @@ func genWorld(seed uint64, r *simrt.Rand, p *Profile) WorldCfg {
 		Jitter:    []time.Duration{0, 100 * time.Microsecond, 3 * time.Millisecond}[r.Intn(3)],
 		SplitProb: []float64{0, 0.2, 0.7}[r.Intn(3)],
 		Window:    []int{64 << 10, 4 << 10, 1 << 20}[r.Intn(3)],
+	}
+	if p.NoJitter > 0 && r.Bool(p.NoJitter) {
+		w.Net.Jitter = 0
 	}
 	return w
 }
